@@ -265,7 +265,7 @@ impl RandState<'_> {
                 )
             }
             TypeInner::Service(_) => IDLValue::Service(crate::Principal::arbitrary(u)?),
-            _ => unimplemented!(),
+            _ => return Err(Error::msg(format!("cannot generate a value of type {ty}"))),
         });
         self.0.pop_state(old_config, StateElem::Type(ty));
         res
@@ -298,7 +298,7 @@ fn size_helper(env: &TypeEnv, seen: &mut HashSet<String>, t: &Type) -> Option<us
     Some(match t.as_ref() {
         Var(id) => {
             if seen.insert(id.to_string()) {
-                let ty = env.rec_find_type(id).unwrap();
+                let ty = env.rec_find_type(id).ok()?;
                 let res = size_helper(env, seen, ty)?;
                 seen.remove(id);
                 res
@@ -403,6 +403,9 @@ where
             let max = T::max_value();
             let l = T::try_from(l).unwrap_or(min);
             let r = T::try_from(r).unwrap_or(max);
+            if l > r {
+                return Err(Error::msg("the configured range is empty for this type"));
+            }
             u.int_in_range(l..=r)?
         }
     })
@@ -417,7 +420,11 @@ fn arbitrary_variant(u: &mut Unstructured, weight: &[usize]) -> Result<usize> {
             Some(*sum)
         })
         .collect();
-    let selected = u.int_in_range(0..=prefix_sum[prefix_sum.len() - 1] - 1)?;
+    let total = prefix_sum.last().copied().unwrap_or(0);
+    if total == 0 {
+        return Err(Error::msg("empty variant"));
+    }
+    let selected = u.int_in_range(0..=total - 1)?;
     for (i, e) in prefix_sum.iter().enumerate() {
         if selected < *e {
             return Ok(i);
